@@ -137,6 +137,33 @@ Theorem failed_step_unchanged s o ops :
   step s o = None -> run s (o :: ops) = observe false s :: run s ops.
 Proof. intros H. cbn [run]. rewrite H. reflexivity. Qed.
 
+(* ---------------- stash stack (round 2) ---------------- *)
+(* pop takes the most recent stash and removes only that entry *)
+Theorem pop_takes_latest s e rest w' :
+  s_stashes s = e :: rest -> do_pop (cur s) e = Some w' ->
+  step s Pop = Some (set_stashes (set_cur s w') rest).
+Proof. intros H1 H2. cbn [step]. rewrite H1, H2. reflexivity. Qed.
+
+(* popping onto a working set that conflicts with the stash is refused: the step fails, so (by
+   failed_step_unchanged) working, staged, head and the stash stack are all unchanged *)
+Theorem stash_pop_conflict s e rest :
+  s_stashes s = e :: rest -> merge_root (snd e) (w_working (cur s)) (fst e) = None ->
+  step s Pop = None.
+Proof. intros H1 H2. cbn [step]. rewrite H1. unfold do_pop. rewrite H2. reflexivity. Qed.
+
+(* a successful pop changes only the working root of the current branch *)
+Theorem pop_touches_working_only w e w' :
+  do_pop w e = Some w' -> w_head w' = w_head w /\ w_staged w' = w_staged w.
+Proof. unfold do_pop. destruct (merge_root _ _ _); [|discriminate]. intros H; inversion H; subst. split; reflexivity. Qed.
+
+(* stashes are pushed on top: after a successful stash the new entry is first and the older ones follow *)
+Theorem stash_pushes_on_top s s' :
+  step s Stash = Some s' -> exists e, s_stashes s' = e :: s_stashes s /\ e = (w_working (cur s), w_head (cur s)).
+Proof.
+  cbn [step]. unfold do_stash. destruct (has_changes (cur s)); [|discriminate]. intros H; inversion H; subst.
+  eexists. split; reflexivity.
+Qed.
+
 (* non-vacuity: a carried and a refused checkout *)
 Example ex_move_refused :
   let m := ([((1, 1), [Some 0; Some 0])], []) in let o := ([((1, 1), [Some 5; Some 5])], []) in
